@@ -1,11 +1,74 @@
 /-
   C18 — the description cache fetches once, shares the result, and cannot deadlock.
-  Property theorems only.
--/
-import Upnp.Model.C18Cache
-namespace Upnp.C18
 
-/-- F18a's witness on the model: lookup A, lookup B, cancel A — B re-fetches and every lookup ends -/
+  Property theorems only (invariants and their preservation are in `Upnp/Lemmas/C18*.lean`).
+  The model (`Upnp/Model/C18Cache.lean`) runs `async_get_description_dict` / `uncache_description` on
+  an event loop at the granularity of one ready handle per `step`; `run ops` is the observable trace
+  (operations, events, scheduler snapshots) and `judge` (`Upnp/Spec/C18.lean`) is the monitor that
+  is also evaluated on the implementation's trace at run time.  All theorems are for EVERY
+  operation sequence: any number of lookups, locations, releases with any outcome, cancellations
+  at any handle boundary, uncaches, in any interleaving.
+-/
+import Upnp.Lemmas.C18LiveStep
+namespace Upnp.C18
+open Upnp St
+
+/-- the liveness invariant holds in every reachable state -/
+theorem reach_invL (ops : List Op) : InvL (finalState {} ops) := by
+  suffices H : ∀ s, InvL s → InvL (finalState s ops) from H _ invL_init
+  induction ops with
+  | nil => intro s h; exact h
+  | cons op rest ih => intro s h; exact ih _ (invL_apply s op h)
+
+/-- `no_orphan_marker`: in every reachable state an in-flight marker in the cache belongs to a
+    live lookup of that location which awaits its download, and that lookup is runnable or its
+    download is still outstanding (so the marker's event will be set). -/
+theorem no_orphan_marker (ops : List Op) (loc : Loc) (e : Nat)
+    (h : PyDict.get? (finalState {} ops).cache loc = some (.marker e)) :
+    ∃ t d, (finalState {} ops).pcOf t = some (.waitDl d e) ∧ (finalState {} ops).locOf t = loc
+      ∧ (t ∈ (finalState {} ops).ready ∨ (finalState {} ops).outstanding d = true) := by
+  have inv := reach_invL ops
+  obtain ⟨t, d, h1, h2⟩ := inv.mark loc e h
+  exact ⟨t, d, h1, h2, inv.lDl t d e h1⟩
+
+/-- `no_deadlock`: in every reachable state, if nothing is runnable and no download is
+    outstanding, then no lookup is unfinished — whatever was cancelled or uncached before. -/
+theorem no_deadlock (ops : List Op) (hr : (finalState {} ops).ready = [])
+    (ho : ∀ d, (finalState {} ops).outstanding d = false) :
+    ∀ k ∈ (finalState {} ops).ts, k.pc = .done := by
+  have hq := quiet_of_invL _ (reach_invL ops)
+  have h0 : (finalState {} ops).outstandingCount = 0 := by
+    unfold outstandingCount
+    rw [List.length_eq_zero_iff, List.filter_eq_nil_iff]
+    intro d _; simp [ho d]
+  simp only [quietOk, hr, h0, List.length_nil, beq_self_eq_true, Bool.and_self, Bool.not_true, Bool.false_or,
+    beq_iff_eq] at hq
+  unfold pendingCount at hq
+  rw [List.length_eq_zero_iff, List.filter_eq_nil_iff] at hq
+  intro k hk
+  have := hq k hk
+  simpa using this
+
+/-- every scheduler snapshot of every trace passes the monitor's deadlock check -/
+theorem snapshots_ok (ops : List Op) :
+    ∀ r o p, Item.snap r o p ∈ run ops → quietOk r o p = true := by
+  suffices H : ∀ s, InvL s → ∀ r o p, Item.snap r o p ∈ runFrom s ops → quietOk r o p = true from H _ invL_init
+  induction ops with
+  | nil => intro s _ r o p hm; simp [runFrom] at hm
+  | cons op rest ih =>
+    intro s h r o p hm
+    have h' := invL_apply s op h
+    simp only [runFrom, List.cons_append, List.mem_cons, List.mem_append, List.mem_map, reduceCtorEq, false_or] at hm
+    rcases hm with ⟨_, _, hx⟩ | hm | hm
+    · cases hx
+    · simp only [St.snap, Item.snap.injEq] at hm
+      obtain ⟨rfl, rfl, rfl⟩ := hm
+      exact quiet_of_invL _ h'
+    · exact ih _ h' r o p hm
+
+/-- F18a's witness on the model: lookup A, lookup B, cancel A — B re-fetches, later lookups share B's
+    outcome, every lookup ends; the whole trace is accepted by the judge (non-vacuity of the
+    theorems above: the trace contains a cancellation of the marker's owner, a re-fetch, a waiter) -/
 theorem witness_F18a_ok :
     judge (run [.lookup 0, .lookup 0, .step, .step, .cancel 0, .step, .step, .complete 1 (some 7), .step,
                 .lookup 0, .step]) = true := by decide
